@@ -18,24 +18,38 @@ sys.path.insert(0, os.path.dirname(os.path.abspath(__file__)))
 import common  # noqa: E402
 import procreplay  # noqa: E402
 import tlc  # noqa: E402
-from findings import classify_c11  # noqa: E402
 
-OPTS = {"abisub": ["v8", "v8nofp", "v6"], "router": ["v6", "v8"]}
+OPTS = {"abisub": ["v8", "v8nofp", "v6"], "router": ["v6", "v8"], "router1": ["v6", "v8"]}
 
 
-def explore(restore, depth, name, emit=False, simulate=None, seed=None):
+def explore(restore, depth, name, emit=False, simulate=None, seed=None, cleans=True, strict=False):
     wd = tlc.workdir("process_" + name)
-    cfg = "SPECIFICATION Spec\nCONSTANTS RestoreOnException = %s\nMaxDepth = %d\nINVARIANT HistoryIndependence\nINVARIANT MarkerRestored\n%sCHECK_DEADLOCK FALSE\n" % (
-        "TRUE" if restore else "FALSE", depth, "CONSTRAINT Emit\n" if emit else "")
+    cfg = "SPECIFICATION Spec\nCONSTANTS RestoreOnException = %s\nRouterCleansOnException = %s\nMaxDepth = %d\nINVARIANT HistoryIndependence%s\nINVARIANT MarkerRestored\n%sCHECK_DEADLOCK FALSE\n" % (
+        "TRUE" if restore else "FALSE", "TRUE" if cleans else "FALSE", depth, "Strict" if strict else "", "CONSTRAINT Emit\n" if emit else "")
     return tlc.run_tlc("Process", cfg, wd, workers=4 if not simulate else 1, timeout=900, xss="16m", simulate=simulate, depth=depth + 1 if simulate else None, seed=seed)
 
 
 def histories(res):
-    out = set()
+    """{history: coverage signature of its last transition (Process.tla Sig)}"""
+    out = {}
     for line in res.out.splitlines():
         if line.startswith('"H|'):
-            out.add(line[3:-1])
-    return sorted(out)
+            h, sig = line[3:-1].split("|")
+            out[h] = sig
+    return out
+
+
+def cover(hmap, rnd, per_sig, fill):
+    """at least per_sig histories for every signature TLC produced, then `fill` more at random"""
+    by = {}
+    for h in sorted(hmap):
+        by.setdefault(hmap[h], []).append(h)
+    chosen = set()
+    for sig in sorted(by):
+        chosen.update(rnd.sample(by[sig], min(per_sig, len(by[sig]))))
+    rest = sorted(set(hmap) - chosen)
+    chosen.update(rnd.sample(rest, min(fill, len(rest))))
+    return sorted(chosen), len(by)
 
 
 def _replay(h):
@@ -55,26 +69,39 @@ def main():
     chk.add_tlc(bad)
     if not bad.invariant_violated:
         chk.machinery_failure("Process.tla without restore does not violate the invariants: the properties are vacuous")
+    dirty = explore(True, 4, "design_noclean", cleans=False)
+    chk.add_tlc(dirty)
+    if dirty.invariant_violated != "HistoryIndependence":
+        chk.machinery_failure("Process.tla with a Router that does not clean up after a failed attempt does not violate HistoryIndependence (%s)" % dirty.invariant_violated)
+    strict = explore(True, 4, "design_strict", strict=True)
+    chk.add_tlc(strict)
+    if strict.invariant_violated == "HistoryIndependenceStrict":
+        chk.report("A19/router-recompile-renumbers-slots", "design level: Process.tla, which models the Router's cached declarations and counter rewind as they are, "
+                   "violates the property as stated (re-compiling a Router after other allocations, or a Router with several methods)", {"level": "design", "invariant": "HistoryIndependenceStrict"})
     # (2) histories
-    g = explore(True, 3, "hist3", emit=True)
-    chk.add_tlc(g)
-    hs = histories(g)
-    if tier == "quick":
-        hs = rnd.sample(hs, min(len(hs), 350))
+    hs, nsig = [], {}
+    for depth in (2, 3):
+        g = explore(True, depth, "hist%d" % depth, emit=True)
+        chk.add_tlc(g)
+        sel, n = cover(histories(g), rnd, 1 if tier == "quick" else 4, (0 if depth == 2 else 120) if tier == "quick" else 3000)
+        hs += sel
+        nsig[depth] = n
     sim = explore(True, 6 if tier == "quick" else 8, "sim", emit=True, simulate="num=%d" % (150 if tier == "quick" else 3000), seed=seed)
     chk.add_tlc(sim)
-    hsim = histories(sim)
-    hs += rnd.sample(hsim, min(len(hsim), 150 if tier == "quick" else 3000))
+    hsim = sorted(histories(sim))
+    hs += rnd.sample(hsim, min(len(hsim), 100 if tier == "quick" else 3000))
     if tier == "thorough":
         g4 = explore(True, 4, "hist4", emit=True)
         chk.add_tlc(g4)
-        hs += rnd.sample(histories(g4), 6000)
+        sel, n = cover(histories(g4), rnd, 2, 3000)
+        hs += sel
+        nsig[4] = n
     hs = sorted(set(hs))
     if not hs:
         chk.machinery_failure("no histories generated: %s" % g.out[-800:])
     # (3) fresh-process references, identical under several hash seeds
     fresh = {}
-    kinds = ["plain", "subs", "abimain", "abisub", "router", "tmpl", "itxn"]
+    kinds = ["plain", "subs", "abimain", "abisub", "router", "router1", "tmpl", "itxn"]
     pairs = [(k, o) for k in kinds for o in OPTS.get(k, ["v6", "v9"])]
     with ThreadPoolExecutor(max_workers=12) as ex:
         results = list(ex.map(lambda ko: [procreplay.fresh(ko[0], ko[1], hs_) for hs_ in (0, 1, seed + 2)], pairs))
@@ -97,12 +124,12 @@ def main():
             same = 1
             if ev["act"] == "compile" and ev["cls"] == "teal":
                 same = 1 if ev["text"] == fresh[(ev["p"], ev["o"])] else 0
-            evs.append({"act": ev["act"], "p": ev["p"], "o": ev["o"], "cls": ev["cls"], "same": same, "marker_none": ev["marker_none"]})
+            evs.append({"act": ev["act"], "p": ev["p"], "o": ev["o"], "cls": ev["cls"], "same": same, "marker_none": ev["marker_none"], "adv": ev["adv"]})
         batch.append(evs)
     wd = tlc.workdir("ptrace")
     bf = os.path.join(wd, "batch.json")
     tlc.dump_json(bf, batch)
-    cfg = "SPECIFICATION TSpec\nCONSTANTS RestoreOnException = TRUE\nMaxDepth = 99\nCHECK_DEADLOCK FALSE\n"
+    cfg = "SPECIFICATION TSpec\nCONSTANTS RestoreOnException = TRUE\nRouterCleansOnException = TRUE\nMaxDepth = 99\nCHECK_DEADLOCK FALSE\n"
     tr = tlc.run_tlc("ProcessTrace", cfg, wd, env={"BATCH_FILE": bf}, workers=8, timeout=1500, xss="64m")
     chk.add_tlc(tr)
     if tr.error:
@@ -113,23 +140,32 @@ def main():
     if len(seen) != len(batch) and not tr.error:
         chk.machinery_failure("%d of %d trace verdicts missing" % (len(batch) - len(seen), len(batch)))
     accepted = 0
+    with_a19 = []
     for idx, v in sorted(seen.items()):
         if v[1] == "accepted":
             accepted += 1
             continue
+        if v[1] == "accepted-with-a19":
+            accepted += 1
+            with_a19.append(idx)
+            continue
         at = int(v[2]) - 1
         ev = batch[idx][at]
-        key = classify_c11(hs[idx], at, ev, batch[idx]) or "C11/trace-rejected/%s:%s:%s/%s" % (ev["act"], ev["p"], ev["o"], "marker" if not ev["marker_none"] else ("differs" if not ev["same"] else ev["cls"]))
+        key = "C11/trace-rejected/%s:%s:%s/%s" % (ev["act"], ev["p"], ev["o"], "marker" if not ev["marker_none"] else ("differs" if not ev["same"] else ev["cls"]))
         chk.report(key, "history %s: event %d (%s:%s:%s) observed cls=%s same-as-fresh=%d marker_none=%d is not allowed by Process.tla" % (
             hs[idx], at + 1, ev["act"], ev["p"], ev["o"], ev["cls"], ev["same"], ev["marker_none"]), {"history": hs[idx], "event": at + 1, "trace": batch[idx]})
+    if with_a19:
+        chk.report("A19/router-recompile-renumbers-slots", "%d histories re-compile a Router instance where Process.tla predicts the recorded deviation (other allocations since its first "
+                   "attempt, or several methods) and the TEAL was in fact numbered differently, e.g. %s" % (len(with_a19), hs[with_a19[0]]),
+                   {"history": hs[with_a19[0]], "trace": batch[with_a19[0]], "count": len(with_a19)})
     chk.sample({"history": hs[0], "trace": batch[0] if batch else None})
     chk.sample({"history": hs[-1]})
     chk.cov["traces_validated_against_impl"] = len(batch)
     chk.cov["evaluations"] = sum(len(b) for b in batch)
     chk.cov["distinct_nontrivial"] = accepted
-    chk.notes.update({"histories": len(hs), "accepted": accepted, "fresh_references": len(fresh), "hash_seeds": [0, 1, seed + 2],
+    chk.notes.update({"histories": len(hs), "transition_signatures_covered": nsig, "accepted": accepted, "fresh_references": len(fresh), "hash_seeds": [0, 1, seed + 2],
                       "design_level_states_restore": ok.distinct, "no_restore_variant_violates": bad.invariant_violated,
-                      "rule": "histories = behaviours of Process.tla (all of depth 3, sampled in quick; seeded -simulate walks of depth 6/8); "
+                      "rule": "histories = behaviours of Process.tla: at least one per transition signature (Sig) at depths 2 and 3, random others, seeded -simulate walks of depth 6/8; "
                               "non-trivial = history accepted by the trace specification event by event"})
     chk.assumptions += ["the program catalogue of harness/procreplay.py stands for 'all programs'", "fork() isolates histories from each other"]
     chk.finish()
